@@ -387,11 +387,24 @@ def first_break_x(line):
     unbreakable unit): the start of the first space that has visible content before and after it, or an
     inline-block boundary with content on both sides"""
     items = [it for it in line['items'] if it['kind'] in ('text', 'atomic')]
+
+    def closing_spacing(atom):
+        # the end margin / border / padding (ltr) of the inline boxes of this line whose last content is this atomic
+        # box: they follow it without a break opportunity, so they belong to its unit
+        allit, total = line['items'], 0
+        for a, box in enumerate(allit):
+            if box['kind'] != 'inline':
+                continue
+            sub = [x for x in allit[a + 1:a + 1 + box.get('span', 0)]
+                   if x['kind'] in ('atomic', 'text') and not (x['kind'] == 'text' and not x['text'])]
+            if sub and sub[-1] is atom:
+                total += box['mr'] + box['br'] + box['pr']
+        return total
     # visible content units in order: (kind, x_start, x_end)
     seq = []
     for it in items:
         if it['kind'] == 'atomic':
-            seq.append(('o', it['x'], it['x'] + mbw(it)))
+            seq.append(('o', it['x'], it['x'] + mbw(it) + closing_spacing(it)))
         else:
             nsp = 0
             for k, ch in enumerate(it['text']):
@@ -750,63 +763,15 @@ def judge_floats(case, blocks):
 
 
 def classify_floats(case, blocks, clause, detail):
-    """open findings about floats and lines: the test looks at the offending line"""
-    import re
-    mains = [b for b in blocks if b['main']]
-    m = re.match(r'line (\d+)', detail)
-    if len(mains) != 1 or not m:
-        return None
-    B = mains[0]
-    lines = [ln for ln in B['lines'] if ln['text'].strip(' ') or ln['w'] > 0]
-    i = int(m.group(1))
-    if i >= len(lines):
-        return None
-    ln = lines[i]
-    mm = re.search(r'x=([-0-9.]+) w=([-0-9.]+) free ([-0-9.]+)\.\.([-0-9.]+)', detail)
-    # F135: the line fits beside the floats only without its trailing space and is re-aligned in the width below them
-    if clause in ('float-start-x', 'float-fit') and mm and case['ta'] in ('right', 'justify'):
-        x, w, lo, hi = (float(g) for g in mm.groups())
-        over = max(x + w - hi, lo - x)
-        # width of the line before justification
-        natural = len(ln['text'].strip(' ')) * case['fs'] if case['ta'] == 'justify' else w
-        if natural <= hi - lo + EPS < natural + case['fs'] + 2 * EPS and over <= case['width'] + EPS \
-                and w <= case['width'] + EPS:
-            return 'float-line-realigned-with-width-including-trailing-space'
-    # the second avoid_collisions of get_next_linebox is given the content height of the line (font size) instead of the
-    # height of the line box: a float that only meets the lower half-leading of the line is ignored when the line is
-    # aligned - the position is explained by the interval recomputed with the font size as height
-    if clause in ('float-start-x', 'float-fit') and mm and case['ta'] in ('right', 'justify') and case['lh'] > case['fs']:
-        x, w, lo, hi = (float(g) for g in mm.groups())
-        l2, r2 = free_interval(B, B['floats'], ln['y'], ln['y'] + case['fs'])
-        # the line keeps the start position found with the height of the line box (lo) and is aligned / justified in
-        # the width found with the font size as height (r2 - l2)
-        if (l2, r2) != (lo, hi):
-            if case['ta'] == 'right' and abs(x - (lo + (r2 - l2) - w)) < EPS:
-                return 'float-line-realigned-with-content-height'
-            if case['ta'] == 'justify' and abs(w - (r2 - l2)) < EPS and abs(x - lo) < EPS:
-                return 'float-line-realigned-with-content-height'
-    # floats that are inline children met at the start of line 0: one of them was placed below the top of that line
-    # (clearance, no room beside the previous one) but still inside its vertical extent; the line is not shortened
-    if case['inline'] and i == 0 and clause in ('float-start-x', 'float-fit', 'float-greedy'):
-        if any(ln['y'] + EPS < f['y'] < ln['y'] + ln['h'] - EPS for f in B['floats'][:case['nfloats']]):
-            return 'inline-float-placed-below-line-top-still-overlaps-line'
-    # F50 / F51: a float met in the middle of a line (not at its start): the text after it is not shifted, and the
-    # float is re-aligned to the top of that line; only the lines sharing vertical extent with that float are concerned
-    if case['mid'] is not None:
-        known = [f for f in B['floats']]
-        midf = known[case['nfloats']:] if len(known) > case['nfloats'] else []
-        for f in midf:
-            if f['y'] < ln['y'] + ln['h'] + EPS and f['y'] + f['mh'] > ln['y'] - ln['h'] - EPS:
-                return 'inline-float-text-not-shifted' if f['side'] == 'left' else 'inline-float-realigned-to-line-top'
+    """no open finding concerns lines next to floats any more (F50, F51, F135, F183, F184, F187 are repaired)"""
     return None
 
 
 def classify_render(case, paras, clause, detail):
     """signature of the open finding whose mechanism applies to the offending line (None: unexplained).
-    Each test looks at the features of the offending line(s) that make the mechanism apply, not at the clause alone."""
+    Open: F118 (a collapsible space dropped inside a line), F120 (coarse: paragraphs with soft hyphens).  The branches
+    for F116, F117, F119, F135, F136 were removed when those findings were repaired in /repo."""
     import re
-    fit_clauses = ('no-overflow-unless-one-unit', 'greedy', 'line-inside-block', 'text-align', 'justify-fills',
-                   'line-beside-float')
     m = re.match(r'line (\d+)', detail)
     lines = paras[0]['lines'] if len(paras) == 1 else []
     i = int(m.group(1)) if m else None
@@ -814,65 +779,42 @@ def classify_render(case, paras, clause, detail):
 
     def txt(ln):
         return ''.join(it['text'] or '' for it in ln['items'] if it['kind'] == 'text')
-    # F112-F116 (soft hyphens): the offending line, or the one after it, holds a soft hyphen / an inserted hyphen
     if case['shy'] and (clause in ('lines-cover-text', 'paragraph-rendered-once') or
                         any(SHY in txt(ln) or HY in txt(ln) for ln in here)):
         return 'render-soft-hyphen-paragraph'
     if clause == 'space-dropped-inside-line':
         return 'text-box-trailing-space-dropped-mid-line'
-    if clause not in fit_clauses + ('extents-add-up',) or not here:
-        return None
-    avail = paras[0]['w']
-    ln = here[0]
-    # F117: an inline box with left margin/border/padding starts on the offending line (or opens the next one,
-    # which is then pushed down as a whole) ...
-    def start_sp(it):       # spacing on the start side of the inline box (right side in rtl)
-        return (it['mr'] + it['br'] + it['pr']) if case['rtl'] else (it['ml'] + it['bl'] + it['pl'])
-    starts = [it for l_ in here for it in l_['items'] if it['kind'] == 'inline' and start_sp(it) > 0]
-    if starts and clause in fit_clauses:
-        left_here = sum(start_sp(it) for it in ln['items'] if it['kind'] == 'inline')
-        # ... and for an overflow the excess is at most that uncounted spacing
-        hang = 0
-        if case['ws'] in ('pre', 'pre-wrap'):
-            tbs = [it for it in ln['items'] if it['kind'] == 'text' and it['text']]
-            if tbs:
-                tt = tbs[-1]['text'].rstrip('\n')
-                hang = (len(tt) - len(tt.rstrip(' '))) * tbs[-1]['fs']
-        if clause != 'no-overflow-unless-one-unit' or ln['w'] - left_here - hang <= avail + EPS:
-            return 'inline-start-spacing-ignored-in-line-fitting'
-    # F118: the offending line ends inside an inline box that goes on (its end spacing is subtracted on every line
-    # of its last child), and the room that was left is smaller than the end spacings of the paragraph's spans
-    if clause == 'greedy' and len(here) == 2 and case.get('right_max', 0) > 0:
-        leaf = [it for it in ln['items'] if it['kind'] in ('text', 'atomic')]
-        nxt_first = here[1]['items'][0] if here[1]['items'] else None
-        if leaf and leaf[-1]['depth'] >= 1 and nxt_first is not None and nxt_first['kind'] == 'inline':
-            mm = re.search(r'\(([-0-9.]+) of ([-0-9.]+)\): next unit of extent ([-0-9.]+)', detail)
-            if mm:
-                used, av, ext = float(mm.group(1)), float(mm.group(2)), float(mm.group(3))
-                if used + ext + 2 * case['right_max'] + case['fs'] > av:
-                    return 'inline-end-spacing-subtracted-on-every-line-of-last-child'
-    # white-space: pre-wrap: an inline box that does not fit entirely after the text of the line is moved to the next
-    # line as a whole (the offending line is followed by a line that opens with an inline box)
-    if clause == 'greedy' and case['ws'] == 'pre-wrap' and len(here) == 2 and here[1]['items'] \
-            and here[1]['items'][0]['kind'] == 'inline':
-        return 'pre-wrap-inline-box-moved-whole-to-next-line'
-    # a float before the paragraph: the line is re-aligned with the width available BELOW the float because the width
-    # it is given for that test still counts its trailing space (it fits beside the float only without that space)
-    if clause == 'line-beside-float' and case['flt'] is not None:
-        mm = re.search(r'x=([-0-9.]+) w=([-0-9.]+) free ([-0-9.]+)\.\.([-0-9.]+)', detail)
-        if mm:
-            x, w, lo, hi = (float(g) for g in mm.groups())
-            over = max(x + w - hi, lo - x)
-            sizes = [it['fs'] for it in ln['items'] if it['kind'] == 'text']
-            if sizes and over <= case['flt']['w'] + EPS and w <= hi - lo + EPS < w + max(sizes) + 2 * EPS:
-                return 'float-line-realigned-with-width-including-trailing-space'
-    # F120: inline boxes nested in inline boxes, or inline-blocks inside inline boxes, on the offending lines
-    # (the box that opens the next line may hold them a few lines further down)
-    for l_ in lines[i:i + 8]:
-        for it in l_['items']:
-            if it['depth'] >= 1 and it['kind'] in ('inline', 'atomic'):
-                return 'nested-inline-boxes-line-breaking'
+    # an inline box that ends with an atomic box (inline-block, ...) followed by end margin/border/padding: the end
+    # spacing is not counted when the atomic box is fitted (it is only subtracted when a text child is laid out
+    # again), so the box overflows the line by at most that spacing, or is moved whole to the next line
+    if clause in ('no-overflow-unless-one-unit', 'greedy', 'justify-fills', 'line-inside-block', 'text-align') and here:
+        avail = paras[0]['w']
+
+        def end_sp(it):
+            return (it['ml'] + it['bl'] + it['pl']) if case['rtl'] else (it['mr'] + it['br'] + it['pr'])
+
+        def ends_with_atomic(items, k):
+            it = items[k]
+            sub = items[k + 1:k + 1 + it.get('span', 0)]
+            kids = [x for x in sub if x['depth'] == it['depth'] + 1 and x['kind'] not in ('float', 'abs')
+                    and not (x['kind'] == 'text' and not x['text'])]
+            if not kids:
+                return False
+            last = kids[-1]
+            if last['kind'] == 'atomic':
+                return True
+            return last['kind'] == 'inline' and end_sp(last) == 0 and ends_with_atomic(items, items.index(last))
+        for pos, l_ in enumerate(here):
+            for k, it in enumerate(l_['items']):
+                if it['kind'] == 'inline' and end_sp(it) > 0 and ends_with_atomic(l_['items'], k):
+                    total = sum(end_sp(x) for x in l_['items'] if x['kind'] == 'inline')
+                    if clause == 'greedy':
+                        if pos == 1 or l_['w'] > avail + EPS:
+                            return 'inline-end-spacing-after-atomic-last-child-not-counted'
+                    elif pos == 0 and l_['w'] - total <= avail + EPS:
+                        return 'inline-end-spacing-after-atomic-last-child-not-counted'
     return None
+
 
 # ------------------------------------------------------------------------------------------------ check
 
@@ -953,27 +895,8 @@ def first_unit_em(text, hy):
 
 
 def classify_sfl(c, o, mask):
-    """signature of the known mechanism explaining a deviation of the implementation from the greedy spec
-    (None: unexplained)"""
-    text, ow, wb = c['text'], c['ow'], c['wb']
-    wrap = c['ws'] in ('normal', 'pre-wrap', 'pre-line')
-    can_break = wb == 'break-all' or (c['ils'] and (ow == 'anywhere' or (ow == 'break-word' and not c['mini'])))
-    if not wrap or c['mw'] is None:
-        return None
-    ltext = o[0]
-    has_shy = SHY in text and c['hy'] == 'manual'
-    if wb == 'break-all' and ow == 'normal' and not ltext.endswith(HY) and mask & 0b11110 == 2:
-        return 'sfl-break-all-reserves-hyphen-room'
-    if has_shy:
-        if mask & 0b11110 == 4 and not ltext.endswith(HY):
-            return 'sfl-soft-hyphen-break-without-hyphen'
-        if first_unit_em(text, c['hy']) * c['fs'] > max(Fraction(c['mw']), 0):
-            return 'sfl-overflowing-word-runs-to-first-soft-hyphen'
-        p0 = text.split('\n')[0]
-        if p0.endswith(' ') and vis_len(p0.rstrip(' ')) * c['fs'] <= Fraction(c['mw']) < vis_len(p0) * c['fs']:
-            return 'sfl-soft-hyphen-trailing-space-counted'
-        if ow != 'normal':
-            return 'sfl-soft-hyphen-under-overflow-wrap'
+    """signature of the open finding explaining a deviation of the implementation from the greedy spec (None:
+    unexplained).  The findings F110-F115 that this function used to recognise are repaired: no branch is left."""
     return None
 
 
@@ -1063,10 +986,6 @@ def stream_render(run, rng, n):
             continue
         if st == 'exc':
             sig = 'crash:%s' % (o['site'],)
-            if c['shy'] and c['ws'] in ('pre', 'pre-wrap', 'pre-line') and o['type'] in ('AssertionError', 'UnicodeDecodeError') \
-                    and o['site'] and o['site'][2] == 'split_text_box':
-                sig = 'crash-soft-hyphen-overflow-before-newline'
-                known[sig] = known.get(sig, 0) + 1
             run.fail('render raised %s at %s' % (o['type'], o['site']),
                      {'stream': 'render-lines', 'html': c['html'], 'exc': o}, signature=sig)
             continue
@@ -1156,13 +1075,8 @@ def stream_avoid(run, rng, n):
 
 
 def stream_floats(run, rng, n):
-    # inputs whose known misbehaviour is an open finding are generated only once that finding is registered for this
-    # property (known_findings.json, `property` or `also`), so that its signature is matched and not a new alarm
-    sigs = {k.get('signature') for k in run.known}
-    allow_mid = {'inline-float-text-not-shifted', 'inline-float-realigned-to-line-top'} <= sigs
-    allow_inline = 'inline-float-placed-below-line-top-still-overlaps-line' in sigs
-    allow_tall = 'float-line-realigned-with-content-height' in sigs
-    cases = [gen_float_case(rng, i, allow_inline, allow_mid, allow_tall) for i in range(n)]
+    allow_mid = allow_inline = True
+    cases = [gen_float_case(rng, i) for i in range(n)]
     outs = common.run_impl('impl_c09', 'render_lines', [{'html': c['html']} for c in cases], limit=60, chunksize=8)
     known, nlines, kinds = {}, 0, set()
     for c, (st, o) in zip(cases, outs):
